@@ -134,6 +134,10 @@ def search(res, tier, seed, deep=False):
                 for mode in (["none", "days"] if tier != "quick" else [["none", "days"][(rnd + len(name)) % 2]]):
                     rs = np.random.RandomState(r.randint(0, 10 ** 6))
                     n = 730; dry = r.choice([0.05, 0.3, 0.6, 0.9]) if name not in ("ScaledDistributionMapping",) else r.choice([0.05, 0.3, 0.6])
+                    if mode == "days":
+                        # a day window holds only (window length x years) values: keep enough wet days in every
+                        # window for the distribution fits (a window with < 2 wet values legitimately raises)
+                        n = 1461; dry = min(dry, 0.3)
                     obs, hist, fut = bounded_series(rs, "pr", n, dry, 0), bounded_series(rs, "pr", n, min(0.95, dry * 1.4), 0.8), bounded_series(rs, "pr", n, dry * 0.8, 0.4)
                     tO, tF = R.times(n, "1981-01-01"), R.times(n, "2041-01-01")
                     try:
